@@ -248,6 +248,7 @@ func c15Case(t *T) {
 						t.NonTrivial(desc)
 					}
 					s := u.String()
+					t.Tracef("%s -> %q", desc, s)
 					parsed, err := url.ParseRequestURI(s)
 					if err != nil {
 						failing = append(failing, desc)
